@@ -15,6 +15,7 @@
 import RSVerif.Proofs.CauchyEnc
 import RSVerif.Properties.C13
 import RSVerif.Proofs.FlatEndToEnd
+import RSVerif.Proofs.SrcCodecSpec
 
 namespace RS
 
@@ -74,6 +75,31 @@ theorem flat_encode_is_cauchy (s : Sched) (f : Flat) (k r : Nat) (hwf : f.WF) (h
             (Vector.replicate (32 * f.len64) 0#16)) :=
   ⟨fun hs hc => flatEncodeHigh_eq_cauchy s f k r hs hc hwf hn j hj,
    fun hs hc => flatEncodeLow_eq_cauchy s f k r hs hc hwf hn j hj⟩
+
+open RS.RustC RS.SrcC in
+/-- the encoder bodies AS TRANSLATED FROM TODAY'S SOURCE (`Gen/SrcCodec.lean`, regenerated by
+    `/verif/translate/rs2lean_codec.py` on every run: the control flow of `HighRateEncoder::encode` /
+    `LowRateEncoder::encode` — chunk loops, `usize` arithmetic, skew offsets — evaluated to the program of
+    engine / memory operations it performs): for every supported configuration no `usize` operation overflows,
+    no loop runs out of fuel, and the program, run with the model's primitives, leaves in recovery position
+    `j` exactly the closed-form code word `Σ_i G[j][i]·original_i` -/
+theorem source_encode_is_cauchy {L : Nat} (s : Sched) (lw : Array Nat) (k r : Nat)
+    (mem : Array (Vector Sym L)) (j : Nat) (hj : j < r) :
+    (supportsHigh k r = true → mem.size = highEncWorkCount k r →
+      ∃ ops, HighRateEncoder_encode k r = some ops ∧
+        rd (runOps s lw ops mem).mem j
+          = (cauchyEncode .high k r (mem.extract 0 k)).getD j (Vector.replicate L 0#16)) ∧
+    (supportsLow k r = true → mem.size = lowEncWorkCount k r →
+      ∃ ops, LowRateEncoder_encode k r = some ops ∧
+        rd (runOps s lw ops mem).mem j
+          = (cauchyEncode .low k r (mem.extract 0 k)).getD j (Vector.replicate L 0#16)) := by
+  constructor
+  · intro hsup hsz
+    obtain ⟨ops, h1, h2⟩ := src_encode_high s lw k r hsup mem hsz
+    exact ⟨ops, h1, by rw [h2]; exact encodeHigh_eq_cauchy s k r hsup mem hsz hj⟩
+  · intro hsup hsz
+    obtain ⟨ops, h1, h2⟩ := src_encode_low s lw k r hsup mem hsz
+    exact ⟨ops, h1, by rw [h2]; exact encodeLow_eq_cauchy s k r hsup mem hsz hj⟩
 
 /-- non-vacuity / sanity: (k, r) = (2, 3) is low rate with m = 2; the first matrix entry evaluated
     by the kernel from the closed form -/
